@@ -26,6 +26,23 @@ func c04Check(root ast.Node) (kind, detail string) {
 		ast.Inspect(root, func(ast.Node) bool { return true })
 		for range ast.Preorder(root) {
 		}
+		// leaving the loop early, at every 1st/2nd/3rd/5th/8th node: the iterator must not call yield again
+		for _, stop := range []int{1, 2, 3, 5, 8} {
+			k := 0
+			for range ast.Preorder(root) {
+				k++
+				if k == stop {
+					break
+				}
+			}
+			k = 0
+			for range ast.PreorderMany([]ast.Node{root, root}) {
+				k++
+				if k == stop {
+					break
+				}
+			}
+		}
 		var log []string
 		c := 0
 		ast.Walk(root, &recVisitor{"", &log, 0, &c})
